@@ -111,9 +111,16 @@ static void after_call(Case &c, Rig &r, Ctl &k, const char *what)
     if(k.cch >= 0) memcpy(k.tl, r.tap.ch[(size_t)k.cch].tl, 4);
 }
 
+// A second instance with ANOTHER volume model that holds the same note and receives, for about half of the calls, the same call just
+// before the instance under test does (stage config). What the instance under test writes is its own business: all clauses unchanged.
+static OPN2_MIDIPlayer *g_shadow = NULL;
+static Rng *g_shadow_rng = NULL;
+static bool shadow_now() { if(!g_shadow || !g_shadow_rng || !g_shadow_rng->chance(0.5)) return false; count("calls_mirrored_to_the_other_model_instance"); return true; }
+
 static void do_cc(Case &c, Rig &r, Ctl &k, int ctl, int val)
 {
     if(ctl == 7) k.cc7 = val; else if(ctl == 11) k.cc11 = val; else if(ctl == 74) k.bright = val;
+    if(shadow_now()) API("opn2_rt_controllerChange", opn2_rt_controllerChange(g_shadow, (uint8_t)k.ch, (uint8_t)ctl, (uint8_t)val));
     API("opn2_rt_controllerChange", opn2_rt_controllerChange(r.dev, (uint8_t)k.ch, (uint8_t)ctl, (uint8_t)val));
     after_call(c, r, k, ctl == 7 ? "CC7" : ctl == 11 ? "CC11" : "CC74");
 }
@@ -125,6 +132,7 @@ static bool do_master(Case &c, Rig &r, Ctl &k, int val)
     ExactBuf eb(msg, sizeof(msg));
     int rc = 0;
     k.master = val;
+    if(shadow_now()) { ExactBuf e2(msg, sizeof(msg)); int r2 = 0; API("opn2_rt_systemExclusive", r2 = opn2_rt_systemExclusive(g_shadow, e2.p, e2.n)); (void)r2; }
     API("opn2_rt_systemExclusive", rc = opn2_rt_systemExclusive(r.dev, eb.p, eb.n));
     after_call(c, r, k, "master-volume SysEx");
     if(rc != 1) { c.violation("oracle:C11:master-volume-sysex-rejected", vfmt("F0 7F 7F 04 01 %02X %02X F7 returned %d", msg[5], val, rc)); return false; }
@@ -137,6 +145,7 @@ static bool do_note(Case &c, Rig &r, Ctl &k, int vel)
     // find the chip channel from the key-on inside the call
     std::vector<uint32_t> before(r.tap.ch.size());
     for(size_t i = 0; i < r.tap.ch.size(); i++) before[i] = r.tap.ch[i].n_keyon;
+    if(shadow_now()) { int r2 = 0; API("opn2_rt_noteOn", r2 = opn2_rt_noteOn(g_shadow, (uint8_t)k.ch, (uint8_t)k.key, (uint8_t)vel)); (void)r2; }
     API("opn2_rt_noteOn", rc = opn2_rt_noteOn(r.dev, (uint8_t)k.ch, (uint8_t)k.key, (uint8_t)vel));
     int found = -1, n = 0;
     for(size_t i = 0; i < r.tap.ch.size(); i++) if(r.tap.ch[i].n_keyon != (i < before.size() ? before[i] : 0)) { found = (int)i; n++; }
@@ -338,6 +347,21 @@ static void stage_config(Case &c)
     if(!perc) API("opn2_rt_patchChange", opn2_rt_patchChange(r.dev, (uint8_t)k.ch, (uint8_t)program));
     if(rng.chance(0.3)) { API("opn2_rt_controllerChange", opn2_rt_controllerChange(r.dev, (uint8_t)k.ch, 67, 127)); count("cases_with_soft_pedal"); }
     r.tap.log.clear();
+    // the other-model instance (half of the cases) and, in the velocity lines, notes played under another model in between
+    Rig sh; Rng shrng(rng.next(), 5, 0);
+    struct ShadowOff { ~ShadowOff() { g_shadow = NULL; g_shadow_rng = NULL; } } shadow_off;
+    const int model2 = 1 + (model - 1 + 1 + (int)rng.below(4)) % 5;
+    const bool flips = rng.chance(0.5);
+    if(rng.chance(0.5) && sh.open(c, 0))
+    {
+        sh.tap.keep_log = false; sh.tap.log.clear();
+        if(put_ins(c, sh, perc != 0, perc ? (unsigned)k.key : (unsigned)program, alg, 0, k.own))
+        {
+            API("opn2_setVolumeRangeModel", opn2_setVolumeRangeModel(sh.dev, model2));
+            if(!perc) API("opn2_rt_patchChange", opn2_rt_patchChange(sh.dev, (uint8_t)k.ch, (uint8_t)program));
+            g_shadow = sh.dev; g_shadow_rng = &shrng; count("cases_with_an_instance_of_another_volume_model");
+        }
+    }
     std::vector<int> A = axis_values(true), V = axis_values(false);
     int npoints = (int)g_w.optnum("points", g_w.tier == "thorough" ? 40 : 8);
     int reported = 0;
@@ -395,6 +419,26 @@ static void stage_config(Case &c)
             }
             check_line(c, k, L, ax == 0 ? "volume" : ax == 1 ? "expression" : "master", reported);
             lines++;
+            if(ax == 1 && rng.chance(0.5))
+            {   // Reset All Controllers while the note is held with a lowered expression: the controls in force afterwards (read from the
+                // channel) are at least what they are when the same values are sent explicitly next, and at most: the carriers' TL of the
+                // two states have to agree (attenuation never increases when a control rises, in both directions)
+                int low = rng.pick((const int[]){0, 1, 32, 64, 100});
+                do_cc(c, r, k, 11, low);
+                API("opn2_rt_controllerChange", opn2_rt_controllerChange(r.dev, (uint8_t)k.ch, 121, 0));
+                { const OPNMIDIplay::MIDIchannel &mc = P(r.dev)->m_midiChannels[(size_t)k.ch]; k.cc7 = mc.volume; k.cc11 = mc.expression; k.bright = mc.brightness; }
+                after_call(c, r, k, "CC121");
+                judge_state(c, k, "CC121");
+                uint8_t t121[4]; memcpy(t121, k.tl, 4);
+                const int v1 = k.cc7, e1 = k.cc11;
+                do_cc(c, r, k, 7, v1); do_cc(c, r, k, 11, e1);
+                for(int sl = 0; sl < 4; sl++) if(is_carrier_slot(alg, sl) && t121[sl] != k.tl[sl] && reported++ < 6)
+                    c.violation(vfmt("oracle:C11:carrier-tl-not-monotone:expression:after-cc121:model-%s", MODEL_NAME[model]),
+                                vfmt("carrier slot %d (operator %d, alg %d): held note, CC11=%d, then CC121 leaves volume %d / expression %d in force with TL %u; sending CC7=%d CC11=%d explicitly gives TL %u [vel=%d master=%d scaling=%d midi-ch=%d]",
+                                     sl, slot_op(sl), alg, low, v1, e1, t121[sl], v1, e1, k.tl[sl], k.vel, k.master, scaling, k.ch));
+                count("reset_all_controllers_with_a_held_note");
+                do_cc(c, r, k, 74, br0); do_cc(c, r, k, 7, a0);
+            }
             if(ax == 0) do_cc(c, r, k, 7, a0); else if(ax == 1) do_cc(c, r, k, 11, b0); else if(!do_master(c, r, k, m0)) return;
         }
         // --- velocity line (each value is a new note-on of the same key)
@@ -402,6 +446,13 @@ static void stage_config(Case &c)
             Line L; bool ok = true;
             for(size_t i = 0; i < V.size(); i++)
             {
+                if(flips && rng.chance(0.3))
+                {   // the same note with the same values was just played under another volume model (host switching models between notes)
+                    API("opn2_setVolumeRangeModel", opn2_setVolumeRangeModel(r.dev, model2));
+                    int r2 = 0; API("opn2_rt_noteOn", r2 = opn2_rt_noteOn(r.dev, (uint8_t)k.ch, (uint8_t)k.key, (uint8_t)V[i])); (void)r2;
+                    API("opn2_setVolumeRangeModel", opn2_setVolumeRangeModel(r.dev, model));
+                    r.tap.log.clear(); count("notes_played_under_another_model_in_between");
+                }
                 if(!do_note(c, r, k, V[i])) { ok = false; break; }
                 judge_state(c, k, "note-on");
                 L.x.push_back(V[i]); L.tl.insert(L.tl.end(), k.tl, k.tl + 4);
